@@ -796,6 +796,19 @@ def _typed_refusals(ctx, res) -> None:
                 name = dotted(e) or "?"
                 if q in idx.classes and idx.is_subclass(q, rope_error):
                     continue
+                # `raise self._not_global_error()` / `raise _unsupported_move_error()`: a helper that BUILDS the refusal -- every value it
+                # returns is an instance of one of the library's error types
+                if isinstance(r.exc, ast.Call):
+                    hfn = None
+                    if is_self_attr(r.exc.func) and f.cls is not None:
+                        hfn = idx.find_method(f.cls.qualname, r.exc.func.attr)
+                    elif q in idx.functions:
+                        hfn = idx.functions[q]
+                    if hfn is not None:
+                        rets = [x.value for x in walk_local(hfn.node) if isinstance(x, ast.Return) and x.value is not None]
+                        built = [idx.resolve(hfn.unit.modname, v.func) if isinstance(v, ast.Call) else None for v in rets]
+                        if rets and all(b in idx.classes and idx.is_subclass(b, rope_error) for b in built):
+                            continue
                 if name.split(".")[-1] in ("NotImplementedError",):
                     continue  # abstract hook
                 if isinstance(e, ast.Name) and not (q in idx.classes) and e.id[0].islower():
